@@ -46,13 +46,13 @@ GUARDS = [
 # property → (theorems, uses the DOM sub-family)
 TARGETS = {
     "C01": ["addMark_applies", "removeMark_applies"],
-    "C04": ["replace_undo_transitive", "removeMarkStep_undo", "addMarkStep_undo", "markHistory_undo", "markHistory_undo_bmp",
+    "C04": ["replace_undo_transitive", "replaceAround_undo_bmp", "removeMarkStep_undo", "addMarkStep_undo", "markHistory_undo", "markHistory_undo_bmp",
             "family_step", "family_history_undo", "family_history_undo_run", "opHistory_undo", "structHistory_undo_bmp",
             "structHistory_undo_bmp'", "mixedHistory_undo_bmp",
             "delete_residual", "delete_residual_around", "insertInline_residual", "insertInline_residual_around",
             "replace_residual_of_inv", "replace_residual", "replace_residual_cut",
             "replaceOp_residual", "editHistory_undo_bmp", "editResidual_of'", "editHistory_undo_bmp'",
-            "fit_around_gapFitsBack", "editResidual'_of_hyps", "editHistory_undo", "deleteOp_residual",
+            "editResidual'_of_hyps", "editHistory_undo", "deleteOp_residual",
             "insertInlineOp_residual", "editHistory_undo'", "insertInlineOp_residual'"],
     "C11": ["fitStep_decreases", "fitLoop_outOfFuel_exact", "fitLoop_terminates", "replaceStep_outOfFuel_cycle",
             "replaceStep_not_outOfFuel", "fit_no_internal_partial", "replaceStep_total_partial", "delete_total",
